@@ -17,7 +17,7 @@ Semantics fixed by this translator (trusted, see DESIGN.md 10):
     are control signals of Imp.v; `while c {..}` is `loop { if !c {break}; .. }`.
 """
 import re
-from rs2v import TranslationError, norm
+from rs2v import TranslationError, norm, matching
 import rsparse
 
 INT_W = {"u8": 8, "u16": 16, "u32": 32, "u64": 64, "i32": 31, "int": 31}
@@ -1658,16 +1658,144 @@ def generate(lib_toks, mac_toks):
 
 
 PINNED_WRAPPERS = [
-    ('parse_with_uninit_headers', 0, "fn parse_with_uninit_headers ( & mut self , buf : & 'b [ u8 ] , headers : & 'h mut [ MaybeUninit < Header < 'b >> ] , ) -> Result < usize > { self . parse_with_config_and_uninit_headers ( buf , & Default :: default ( ) , headers ) }"),
-    ('parse', 0, "fn parse ( & mut self , buf : & 'b [ u8 ] ) -> Result < usize > { self . parse_with_config ( buf , & Default :: default ( ) ) }"),
-    ('parse', 1, "fn parse ( & mut self , buf : & 'b [ u8 ] ) -> Result < usize > { self . parse_with_config ( buf , & ParserConfig :: default ( ) ) }"),
-    ('parse_request', 0, "fn parse_request < 'buf > ( & self , request : & mut Request < '_ , 'buf > , buf : & 'buf [ u8 ] , ) -> Result < usize > { request . parse_with_config ( buf , self ) }"),
-    ('parse_request_with_uninit_headers', 0, "fn parse_request_with_uninit_headers < 'headers , 'buf > ( & self , request : & mut Request < 'headers , 'buf > , buf : & 'buf [ u8 ] , headers : & 'headers mut [ MaybeUninit < Header < 'buf >> ] , ) -> Result < usize > { request . parse_with_config_and_uninit_headers ( buf , self , headers ) }"),
-    ('parse_response', 0, "fn parse_response < 'buf > ( & self , response : & mut Response < '_ , 'buf > , buf : & 'buf [ u8 ] , ) -> Result < usize > { response . parse_with_config ( buf , self ) }"),
-    ('parse_response_with_uninit_headers', 0, "fn parse_response_with_uninit_headers < 'headers , 'buf > ( & self , response : & mut Response < 'headers , 'buf > , buf : & 'buf [ u8 ] , headers : & 'headers mut [ MaybeUninit < Header < 'buf >> ] , ) -> Result < usize > { response . parse_with_config_and_uninit_headers ( buf , self , headers ) }"),
     ('new', 0, "fn new ( headers : & 'h mut [ Header < 'b > ] ) -> Request < 'h , 'b > { Request { method : None , path : None , version : None , headers , } }"),
     ('new', 1, "fn new ( headers : & 'h mut [ Header < 'b > ] ) -> Response < 'h , 'b > { Response { version : None , code : None , reason : None , headers , } }"),
 ]
+
+# G14: the seven one-expression delegations, translated.  A delegation is `RECV.callee(args)` where RECV is the value
+# (`self` in a Request / Response method, the `request` / `response` parameter in a ParserConfig method) and every
+# argument is one of: the buffer parameter, the headers parameter, a configuration (`self` in a ParserConfig method, a
+# `config` parameter, `&Default::default()` / `&ParserConfig::default()`).  Arguments are matched to the CALLEE's
+# parameters by the callee's parameter names (buf / config / headers), read from its signature.
+#   (rust name, nth, coq name, kind)
+DELEGATIONS = [
+    ("parse", 0, "gd_request_parse", "request"),
+    ("parse_with_uninit_headers", 0, "gd_request_parse_with_uninit_headers", "request"),
+    ("parse", 1, "gd_response_parse", "response"),
+    ("parse_request", 0, "gd_parse_request", "request"),
+    ("parse_request_with_uninit_headers", 0, "gd_parse_request_with_uninit_headers", "request"),
+    ("parse_response", 0, "gd_parse_response", "response"),
+    ("parse_response_with_uninit_headers", 0, "gd_parse_response_with_uninit_headers", "response"),
+]
+ROLE_TY = {"cf": "config", "buf": "list N", "v": "V", "arr": "list slot"}
+ROLE_ORDER = ["cf", "buf", "v", "arr"]
+
+
+def _sig_params(hdr):
+    """fn header tokens -> [(name, normalised type)] ; `self` parameters as ("self", "&self" | "&mut self")"""
+    i = 0
+    while hdr[i] != ("op", "("):
+        i += 1
+    j = matching(hdr, i, "(", ")")
+    ps, cur, depth = [], [], 0
+    for t in hdr[i + 1:j]:
+        if t[1] in ("(", "[", "<"):
+            depth += 1
+        elif t[1] in (")", "]", ">"):
+            depth -= 1
+        elif t[1] == ">>":
+            depth -= 2
+        if t == ("op", ",") and depth == 0:
+            ps.append(cur)
+            cur = []
+        else:
+            cur.append(t)
+    if cur:
+        ps.append(cur)
+    out = []
+    for q in ps:
+        txt = norm(q)
+        if txt in ("& mut self", "& self", "self", "mut self"):
+            out.append(("self", txt.replace(" ", "").replace("&mut", "&mut ")))
+            continue
+        if q and q[0][1] == "mut":
+            q = q[1:]
+        if len(q) < 3 or q[1] != ("op", ":"):
+            raise TranslationError("parameter form: " + txt)
+        out.append((q[0][1], norm(q[2:])))
+    return out, norm(hdr[j + 1:])
+
+
+def _role_of_param(name, ty):
+    t = ty.replace("'_", "'a")
+    if re.fullmatch(r"& '?\w* ?\[ u8 \]", ty):
+        return "buf"
+    if ty == "& ParserConfig":
+        return "cf"
+    if re.fullmatch(r"& '?\w* ?mut \[ MaybeUninit < Header < '\w+ >> \]", ty):
+        return "arr"
+    if re.fullmatch(r"& mut (Request|Response) < '\w+ , '\w+ >", ty):
+        return "v"
+    raise TranslationError("delegation parameter %s : %s" % (name, ty))
+
+
+def generate_delegations(g):
+    out = ["(* G14: the one-expression delegations, translated.  Xw = this kind's `parse_with_config`, Xc = its\n"
+           "   `parse_with_config_and_uninit_headers`; V = Request / Response, R = the result. *)"]
+    known = {}      # (kind, rust name) -> (coq name, roles)
+    exc = (TranslationError, IndexError, KeyError, TypeError, ValueError, AttributeError, AssertionError)
+    for rn, nth, cn, kind in DELEGATIONS:
+        try:
+            hdr, body = rsparse.find_fn(g.lib, rn, nth)
+            params, ret = _sig_params(hdr)
+            if ret != "-> Result < usize >":
+                raise TranslationError("return type " + ret)
+            env = {}
+            for name, ty in params:
+                if name == "self":
+                    env["self"] = "v" if ty == "&mut self" else ("cf" if ty == "&self" else None)
+                    if env["self"] is None:
+                        raise TranslationError("self parameter " + ty)
+                else:
+                    env[name] = _role_of_param(name, ty)
+            roles = [r for r in ROLE_ORDER if r in env.values()]
+            if sorted(env.values()) != sorted(roles):
+                raise TranslationError("two parameters of one role")
+            blk = rsparse.RParser(body).parse_block_body(None)
+            if blk[1] or blk[2] is None or blk[2][0] != "mcall":
+                raise TranslationError("not a one-expression delegation")
+            _, recv, callee, args = blk[2]
+            if recv[0] != "path" or env.get(recv[1]) != "v":
+                raise TranslationError("receiver is not the Request / Response value")
+
+            def arg_term(a):
+                if a[0] == "path" and a[1] in env and env[a[1]] != "v":
+                    return env[a[1]], {"cf": "cf", "buf": "buf", "arr": "arr"}[env[a[1]]]
+                if a[0] == "ref" and not a[1] and a[2][0] == "call" and a[2][1][0] == "path" and not a[2][2] \
+                        and a[2][1][1] in ("Default::default", "ParserConfig::default"):
+                    return "cf", "config_default"
+                raise TranslationError("delegation argument " + repr(a)[:80])
+            ats = [arg_term(a) for a in args]
+            knth = {"request": 0, "response": 1}[kind]
+            if callee in ("parse_with_config", "parse_with_config_and_uninit_headers"):
+                chdr, _ = rsparse.find_fn(g.lib, callee, knth)
+                cps, _ = _sig_params(chdr)
+                croles = [_role_of_param(n, t) for n, t in cps if n != "self"]
+                head = "Xw" if callee == "parse_with_config" else "Xc"
+                want = ["cf", "buf"] + (["arr"] if head == "Xc" else [])
+            elif (kind, callee) in known:
+                ccn, kroles = known[(kind, callee)]
+                chdr, _ = rsparse.find_fn(g.lib, callee, [d[1] for d in DELEGATIONS if d[0] == callee and d[3] == kind][0])
+                cps, _ = _sig_params(chdr)
+                croles = [_role_of_param(n, t) for n, t in cps if n != "self"]
+                head = "%s Xw Xc" % ccn
+                want = [r for r in kroles if r != "v"]
+            else:
+                raise TranslationError("delegates to %s, which is outside the fragment" % callee)
+            if [r for r, _ in ats] != croles or sorted(croles) != sorted(want):
+                raise TranslationError("arguments %s against the callee's parameters %s" % ([r for r, _ in ats], croles))
+            byrole = dict(ats)
+            byrole["v"] = "v"
+            call = head + " " + " ".join(byrole[r] for r in ROLE_ORDER if r in byrole and (r in want or r == "v"))
+            binders = " ".join("(%s : %s)" % (r, ROLE_TY[r]) for r in roles)
+            out.append("(* fn %s (#%d) *)\nDefinition %s {V R : Type} (Xw : config -> list N -> V -> R) "
+                       "(Xc : config -> list N -> V -> list slot -> R) %s : R :=\n  %s.\n" % (rn, nth, cn, binders, call))
+            known[(kind, rn)] = (cn, roles)
+        except exc as ex:
+            g.errors.append("G14 %s#%d: %s" % (rn, nth, ex))
+            out.append("(* fn %s (#%d): TRANSLATION FAILED: %s *)\nDefinition %s : unit := tt.\n" % (rn, nth, str(ex).replace("*)", "* )"), cn))
+    return "\n".join(out)
+
 PARSER_CONFIG = ("# [ derive ( Clone , Debug , Default ) ] pub struct ParserConfig { allow_spaces_after_header_name_in_responses : bool , "
                  "allow_obsolete_multiline_headers_in_responses : bool , allow_multiple_spaces_in_request_line_delimiters : bool , "
                  "allow_multiple_spaces_in_response_status_delimiters : bool , allow_space_before_first_header_name : bool , "
@@ -1747,6 +1875,7 @@ def generate_api(g):
         out.append("(* fn parse_headers: TRANSLATION FAILED: %s *)\nDefinition g_parse_headers_body : unit := tt.\n" % str(ex).replace("*)", "* )"))
     out.append("End WithEnv.\n")
     g.fns = saved
+    out.append(generate_delegations(g))
     bad = []
     for name, nth, want in PINNED_WRAPPERS:
         try:
